@@ -215,6 +215,23 @@ def run(rep: Report, tier: str) -> None:
     # ---- R09.6: Time -> Time_Period maps exactly the intervals that ARE a period, to that period (calendar decision table) ----
     rep.rule("R09.6", "vtl_interval_to_period: interval == [start(P), end(P)] of a regular period P  <=>  result is P; every other interval raises")
     _interval_to_period_table(P, rep)
+    # ---- R09.8 cast(x, date) keeps what a Date can hold: the cast's SQL type == the type the loaders store a Date with a time part in ----
+    rep.rule("R09.8", "the SQL type cast(..., date) converts to is the type the loaders use for Date values that carry a time of day (no silent truncation to the day)")
+    om = P.module("vtlengine.duckdb_transpiler.Transpiler.operators")
+    tmap = om.assigns.get("VTL_TO_DUCKDB_TYPES")
+    if not isinstance(tmap, ast.Dict):
+        raise AnalysisError("VTL_TO_DUCKDB_TYPES is not a dict literal")
+    cast_date = next((v.value for k, v in zip(tmap.keys, tmap.values) if isinstance(k, ast.Constant) and k.value == "Date" and isinstance(v, ast.Constant)), None)
+    fdd = P.func("vtlengine.duckdb_transpiler.io._io._detect_date_type_overrides")
+    loader_types = {x.value for n_ in walk_no_nested(fdd.node) if isinstance(n_, ast.Assign) and isinstance(n_.targets[0], ast.Subscript) for x in ast.walk(n_.value)
+                    if isinstance(x, ast.Constant) and isinstance(x.value, str)}
+    rep.instance("R09.8", "date-cast-type", nontrivial=True, sample={"cast target for Date": cast_date, "loader type for a Date with a time part": sorted(loader_types)})
+    if len(loader_types) != 1:
+        raise AnalysisError(f"_detect_date_type_overrides: storage type for Date values with a time part not found ({loader_types})")
+    if cast_date != next(iter(loader_types)):
+        rep.add(Finding("R09.8", "R09.8/date-cast-type", om.rel, tmap.lineno, "VTL_TO_DUCKDB_TYPES",
+                        f"cast(x, date) converts to {cast_date!r}, but a Date value with a time of day is stored as {next(iter(loader_types))!r} by the loaders: "
+                        f"cast(\"2021-03-04 10:30:00\", date) silently drops the time part (and cast(<Date column>, date) is no longer the identity)"))
     rep.assumptions = ["docs/data_types.rst is the oracle for which conversions exist",
                        "type names reach _cast_expr spelled as SCALAR_TYPES keys (target) and class names or keys (source)"]
 
